@@ -13,7 +13,9 @@ LEVEL = "fault_enumeration"
 RULE = ("23 (start state, call) cases covering store_object (new / duplicate / empty content, first / additional pid, "
         "cid with a list but no object, pid already bound), tag_object, delete_object (sole / shared reference, with "
         "metadata, missing object), store_metadata (create / overwrite), delete_metadata (one / all) from 6 start "
-        "states with bystander pids that share the subject's object and carry metadata. For each case a dry run "
+        "states with bystander pids that share the subject's object and carry metadata (thorough: each case in 5 "
+        "identifier / configuration variants - pid lengths 1..35 incl. prefix-related and non-ASCII ones, depth 1-5, "
+        "width 1-4, all five store algorithms). For each case a dry run "
         "under the probe lists the call's file-system operations; EVERY eligible site (create, open for writing, "
         "rename, remove, mkdir, flock, open for reading, under the store root) x {EIO, ENOSPC, EACCES} x {one-off, "
         "persistent for that destination until the call returns} is injected in turn (complete enumeration). Oracle: "
@@ -33,8 +35,10 @@ CODES = {"EIO": errno.EIO, "ENOSPC": errno.ENOSPC, "EACCES": errno.EACCES}
 
 
 def fault_shards(tier, seed):
-    idxs = list(range(len(F.CASES)))
-    return [(c, tier, s) for c, s in zip(chunk(idxs, ncpu()), split_seeds(seed + 13, ncpu()))]
+    nvar = 1 if tier == "quick" else len(F.VARIANTS)
+    idxs = [(ci, v) for v in range(nvar) for ci in range(len(F.CASES))]
+    return [(c, tier, s) for c, s in zip(chunk(idxs, ncpu() * (1 if tier == "quick" else 2)),
+                                         split_seeds(seed + 13, ncpu() * 2))]
 
 
 def shards(tier, seed):
@@ -69,10 +73,10 @@ def site_class(case, op):
 def run_fault_shard(case_idxs, tier, sub_seed, symptoms=None, owner="C13"):
     symptoms = SYMPTOMS if symptoms is None else symptoms
     res = ShardResult()
-    for ci in case_idxs:
+    for ci, variant in case_idxs:
         scratch = new_scratch("fault")
         try:
-            case = F.Case(ci, scratch)
+            case = F.Case(ci, scratch, variant=variant)
             res.count("cases")
             sites = case.sites(F.FAULT_KINDS)
             res.count("sites_enumerated", len(sites))
@@ -92,13 +96,13 @@ def run_fault_shard(case_idxs, tier, sub_seed, symptoms=None, owner="C13"):
                             res.count("persistent_faults_fired")
                         res.count("calls_raised" if not r["outcome"].ok else "calls_returned_normally")
                         res.count("hygiene_checks")
-                        res.distinct.add(repr((ci, site, cname, persistent)))
+                        res.distinct.add(repr((ci, variant, site, cname, persistent)))
                         sc = site_class(case, r["fired"])
                         after_refs = _after_both_refs(case, r["injector"])
                         for symptom, detail in r["problems"]:
                             sig = {"symptom": symptom, "call": op_shape(case.call), "case": case.label,
                                    "site": sc, "persistent": persistent, "after_both_refs_written": after_refs}
-                            wit = {"engine": "fault", "case_index": ci, "case": case.label, "start": case.start_name,
+                            wit = {"engine": "fault", "case_index": ci, "variant": variant, "case": case.label, "start": case.start_name,
                                    "call": case.call, "site": site, "site_op": r["fired"].describe(case.rundir),
                                    "errno": cname, "persistent": persistent, "outcome": r["outcome"].brief(),
                                    "msg": r["outcome"].msg, "detail": jsonable(detail)}
@@ -138,7 +142,7 @@ def replay(witness, symptoms=None):
     res = ShardResult()
     scratch = new_scratch("faultr")
     try:
-        case = F.Case(witness["case_index"], scratch)
+        case = F.Case(witness["case_index"], scratch, variant=witness.get("variant", 0))
         print("case:", case.label, "| start:", case.start_name, "| call:", case.call)
         for i, op in enumerate(case.ops):
             mark = " <== fault here" if i == witness["site"] else ""
